@@ -40,6 +40,8 @@ impl Compress {
             bail!(DSError::InvalidName("Empty name"));
         }
         loop {
+            #[cfg(feature = "verif_hooks")]
+            crate::verif_hooks::step("check_compressed_name");
             if offset >= barrier_offset {
                 if offset >= packet_len {
                     bail!(DSError::InvalidName("Truncated name"));
@@ -106,6 +108,8 @@ impl Compress {
         let mut name_len = 0;
         let mut final_offset = None;
         loop {
+            #[cfg(feature = "verif_hooks")]
+            crate::verif_hooks::step("copy_uncompressed_name");
             let label_len = match packet[offset] {
                 len if len & 0xc0 == 0xc0 => {
                     final_offset = final_offset.or(Some(offset + 2));
@@ -536,6 +540,8 @@ impl Compress {
         let initial_compressed_len = compressed.len();
         let final_offset = offset + uncompressed_name_len;
         loop {
+            #[cfg(feature = "verif_hooks")]
+            crate::verif_hooks::step("copy_compressed_name");
             let label_len = packet[offset] as usize;
             if label_len & 0xc0 == 0xc0 {
                 panic!("copy_compressed_name() called on an already compressed name");
